@@ -27,7 +27,7 @@ BenchWriterProgram(c, ci) ==
 IsParityGate(it) == it.k = "gate" /\ it.t \in {"xor", "xnor"}
 RepeatPositions(it) == {q \in 1..Len(it.ins) : \E q2 \in 1..(q - 1) : it.ins[q2] = it.ins[q]}
 DupGates(p) == {j \in 1..Len(p.items) : IsParityGate(p.items[j]) /\ RepeatPositions(p.items[j]) # {}}
-UidCand(base, k) == IF k = 0 THEN base ELSE base \o "_" \o ToString(UidSteps[k])
+UidCand(base, k) == IF k = 0 THEN base ELSE base \o "_" \o UidSuffix(k)
 \* names handed out while the gates with repeats are read in the order `ord`
 RECURSIVE DupAssign(_,_,_,_,_)
 DupAssign(p, ord, g, cnt, A) ==
